@@ -5,8 +5,9 @@ entries (same id replaces).  Does not run the baseline or the checks and does no
 import json, pathlib, shutil, subprocess, sys
 V = pathlib.Path(__file__).resolve().parent.parent
 pid, src = sys.argv[1], pathlib.Path(sys.argv[2])
-ext = src / "fixes" / pid / "ext"
-flist = pathlib.Path(sys.argv[3]) if len(sys.argv) > 3 else ext / "FILES.txt"
+extname = sys.argv[3] if len(sys.argv) > 3 else "ext"          # e.g. ext3 for a later round
+ext = src / "fixes" / pid / extname
+flist = ext / "FILES.txt"
 for line in flist.read_text().splitlines():
     rel = line.strip().split()[0] if line.strip() else ""
     if not rel or rel.startswith("#") or rel.startswith("evidence/") or rel.startswith("replays/"):
@@ -44,7 +45,7 @@ if ef.exists():
     (V / "known_findings.json").write_text(json.dumps(kf, indent=1))
     print(f"  merged {len(entries)} known-findings entries ({len(fixed)} fixed, {len(shas)} patches)")
 if (ext).exists():
-    (V / "fixes" / pid / "ext").mkdir(parents=True, exist_ok=True)
+    (V / "fixes" / pid / extname).mkdir(parents=True, exist_ok=True)
     for f in ext.iterdir():
         if f.is_file():
-            shutil.copy2(f, V / "fixes" / pid / "ext" / f.name)
+            shutil.copy2(f, V / "fixes" / pid / extname / f.name)
